@@ -74,6 +74,9 @@ def definitions(kind, gam, rho, V, p, section=None):
 
 def _euler_states(rng, n, gam, two_d):
     rho = 10 ** rng.uniform(-6, 6, n); p = 10 ** rng.uniform(-6, 6, n)
+    if rng.random() < 0.2:
+        un = float(10 ** rng.uniform(-25, 25))          # other units (a diffuse gas in CGS has p ~ 1e-18): density and pressure together
+        rho, p = rho * un, p * un
     M = 10 ** rng.uniform(-3, 1, n)
     M[: n // 8] = 0.0
     c = np.sqrt(gam * p / rho)
